@@ -13,6 +13,23 @@ HeaderBytes(o, withSize) ==
 \* an OBU as it appears in the byte stream handed to the payloader
 StreamForm(o) == HeaderBytes(o, o.hassize) \o (IF o.hassize THEN LebOfNat(Len(o.payload)) ELSE <<>>) \o o.payload
 Stream(obus) == Flatten([i \in 1..Len(obus) |-> StreamForm(obus[i])])
+\* reading the byte stream back (open_bitstream_unit syntax): obu_size may be a non-minimal LEB128 number
+RECURSIVE ReadStream(_, _, _)
+ReadStream(s, i, acc) ==
+  IF i > Len(s) THEN [ok |-> TRUE, obus |-> acc]
+  ELSE LET b0 == s[i]
+           ext == (b0 \div 4) % 2 = 1
+           hs == (b0 \div 2) % 2 = 1
+           j == IF ext THEN i + 2 ELSE i + 1 IN
+       IF b0 >= 128 \/ (ext /\ i + 1 > Len(s)) THEN [ok |-> FALSE, obus |-> acc]
+       ELSE LET base == [type |-> (b0 \div 8) % 16, ext |-> ext, tid |-> IF ext THEN s[i + 1] \div 32 ELSE 0, sid |-> IF ext THEN (s[i + 1] \div 8) % 4 ELSE 0,
+                         r3 |-> IF ext THEN s[i + 1] % 8 ELSE 0, r1 |-> b0 % 2, hassize |-> hs] IN
+            IF ~hs THEN [ok |-> TRUE, obus |-> Append(acc, base @@ [payload |-> Slice(s, j, Len(s))])]
+            ELSE LET r == ReadLeb(s, j) IN
+                 IF ~r.ok \/ Len(r.digits) > 8 \/ Len(CanonDigits(r.digits)) > 4 THEN [ok |-> FALSE, obus |-> acc]
+                 ELSE LET n == DigitsVal(CanonDigits(r.digits)) IN
+                      IF r.next + n - 1 > Len(s) THEN [ok |-> FALSE, obus |-> acc]
+                      ELSE ReadStream(s, r.next + n, Append(acc, base @@ [payload |-> Slice(s, r.next, r.next + n - 1)]))
 \* as transmitted in an RTP element: size flag cleared, no size field
 TxForm(o) == HeaderBytes(o, FALSE) \o o.payload
 \* as the depacketizer must hand it on: with a size field
